@@ -283,6 +283,7 @@ func RunFlow(w *World, spec *RunSpec, tune func(f *Flow)) *Flow {
 func (f *Flow) runGeneration(adopt bool) {
 	w := f.W
 	o := &f.O
+	f.genStartStep = w.Steps
 	RunBubble(w, func(s *Sim) {
 		f.S = s
 		f.lastOnline = false
@@ -634,6 +635,9 @@ func init() {
 			if o.Budget > 3 {
 				o.Budget = 3
 			}
+			// stops at any step (StopW families) not only in the first
+			// steps of an incarnation
+			o.StopFrom = []int{0, 10, 40, 120, 250}[f.W.Tape.Draw("stopfrom", 5)]
 			if o.Generations > 2 && f.W.Tape.Flip("hold-until-last", 350) {
 				f.HoldUntilLastGen = true
 				o.StopWhenPublished = false
@@ -837,6 +841,9 @@ func init() {
 		o.PerPub = 2 + f.W.Tape.Draw("perpub16", 5)
 		o.Inbound = f.W.Tape.Draw("nin16", 4)
 		o.InQ = [3]int{0, 1, 3}
+		// (a stop in the first steps leaves nothing but the client
+		// identifier to damage)
+		o.StopFrom = 20 + f.W.Tape.Draw("stopfrom16", 250)
 		f.BetweenGens = func(f *Flow, gen int) {
 			n := 1 + f.W.Tape.Draw("ndamage", 3)
 			f.drawDamage(n, nil)
